@@ -51,7 +51,9 @@ TaintE(i) == i.effE # 0 /\ i.effE # i.en
 \* C16-zoomlatch: with automatic down-sampling settings the factors derived for the first template
 \* are kept (and the derived image is not re-derived) when the template changes.
 TaintZ(i) == i.zoom = 0 /\ i.spk[1] = 2 /\ i.autoT # 0 /\ cfg.geo[i.autoT] # cfg.geo[i.tm]
-TaintOf(i) == IF TaintE(i) THEN "C16-effstale" ELSE IF TaintZ(i) THEN "C16-zoomlatch" ELSE "clean"
+\* (C16-effstale is repaired in /repo by ff10b4636, C16-zoomlatch is still open: a history that carries both signatures
+\* is attributed to the open one -- found when the thorough tier met such a history after the repair)
+TaintOf(i) == IF TaintZ(i) THEN "C16-zoomlatch" ELSE IF TaintE(i) THEN "C16-effstale" ELSE "clean"
 
 (* ------------------------------ outputs -------------------------------- *)
 Key(i) == << i.act, i.att, i.spk[1], i.spk[2], i.tm, i.en >>
